@@ -108,14 +108,14 @@ OwnOwnerOk(nd)   == nd.a = "Own" /\ nd.args.signer = nd.args.holder /\ nd.res.ok
 PrivGuarded(nd)  == nd.a = "Priv" /\ nd.args.chain \in MainTest /\ RefOk(nd)
 PrivAccepted(nd) == nd.a = "Priv" /\ nd.args.chain \in MainTest /\ nd.res.ok /\ ~Same(nd)
 PrivElse(nd)     == nd.a = "Priv" /\ nd.args.chain \notin MainTest /\ nd.args.sender # "admin" /\ RefOk(nd)
-KillRej(nd)      == nd.a = "Kill" /\ ~nd.res.ok
+KillRej(nd)      == nd.a = "Kill" /\ nd.args.sender \notin ConfiguredAdmins(nd.args.adm)     \* attempts by a non-admin (defined on the cell, not on the outcome)
 KillAcc(nd)      == nd.a = "Kill" /\ nd.res.ok
 OpenOk(nd)       == nd.a = "Open" /\ nd.res.ok /\ ~Same(nd)
 OpenHoleOk(nd)   == OpenOk(nd) /\ nd.args.hole /\ nd.st.holed        \* an older position of that kind really was removed first
 OpenWitnessed == {Nd(i).args.msg : i \in {j \in 1..NLog : OpenHoleOk(Nd(j))}}
 HoleyState(nd)   == nd.a = "State" /\ nd.args.k < 0
 KillRotatedAcc(nd) == nd.a = "Kill" /\ nd.args.adm = "rotated" /\ nd.res.ok          \* the rotation really took effect
-KillEmptyRej(nd) == nd.a = "Kill" /\ nd.args.adm = "empty" /\ ~nd.res.ok
+KillEmptyRej(nd) == nd.a = "Kill" /\ nd.args.adm = "empty"                                  \* attempts while no admin is configured
 PrivPayload(nd)  == nd.a = "Priv" /\ nd.args.chain \in MainTest /\ nd.args.pay = "designated" /\ nd.args.sender # nd.args.des /\ RefOk(nd)
 CtlBreaker(nd)   == nd.a = "Ctl" /\ BreakerReq(RowOfN(nd), CtlOfN(nd)) /\ RefOk(nd)
 CtlShutdown(nd)  == nd.a = "Ctl" /\ ShutdownReq(RowOfN(nd), CtlOfN(nd)) /\ RefOk(nd)
@@ -156,8 +156,8 @@ Stats == PrintT(<<"STATS", [nodes |-> NLog, states |-> Cnt(IsState), own |-> Cnt
            ctlPriceInactive |-> Cnt(CtlPriceInactive), ctlCrossPool |-> Cnt(CtlCross), ctlPriceMissing |-> Cnt(CtlPriceMissingM),
            privGuarded |-> Cnt(PrivGuarded), privAccepted |-> Cnt(PrivAccepted), privElsewhere |-> Cnt(PrivElse),
            openOk |-> Cnt(OpenOk), openAfterHole |-> Cnt(OpenHoleOk), openMsgs |-> Cardinality(OpenMsgs), openMsgsWitnessed |-> Cardinality(OpenWitnessed),
-           holeyStates |-> Cnt(HoleyState), killRejected |-> Cnt(KillRej), killAccepted |-> Cnt(KillAcc), killRotatedAccepted |-> Cnt(KillRotatedAcc),
-           killEmptyRejected |-> Cnt(KillEmptyRej), privPayloadNamesDesignated |-> Cnt(PrivPayload),
+           holeyStates |-> Cnt(HoleyState), killForeign |-> Cnt(KillRej), killAccepted |-> Cnt(KillAcc), killRotatedAccepted |-> Cnt(KillRotatedAcc),
+           killEmptyList |-> Cnt(KillEmptyRej), privPayloadNamesDesignated |-> Cnt(PrivPayload),
            ctlBreaker |-> Cnt(CtlBreaker), ctlShutdown |-> Cnt(CtlShutdown), ctlCoolOff |-> Cnt(CtlCoolOff),
            ctlCoolWitness |-> Cnt(CtlCoolWitness), ctlPrice |-> Cnt(CtlPrice), ctlRef |-> Cnt(CtlRef), ctlRefOk |-> Cnt(CtlRefOk),
            ctlFreeOk |-> Cnt(CtlFree), hookBreaker |-> Cnt(HookBreaker), hookPeerBusy |-> Cnt(HookPeerBusy), hookPrice |-> Cnt(HookPrice), hookRef |-> Cnt(HookRef), hookRefActs |-> Cnt(HookRefActs),
